@@ -206,3 +206,124 @@ Proof.
     assert (2 ^ h <= 2 ^ 30) by (apply pow2_le; lia).
     change (2 ^ 30) with 1073741824 in *. change (2 ^ 32) with 4294967296. lia.
 Qed.
+
+(** * 3. the words of the stored nodes in pre-order *)
+
+Lemma all_nodes_length : forall h q, In q (all_nodes h) <-> (length q <= h)%nat.
+Proof.
+  induction h as [|h IH]; intros q; cbn [all_nodes In].
+  - split; [intros [<-|[]]; cbn; lia|]. destruct q; cbn [length]; [now left|lia].
+  - rewrite in_app_iff, !in_map_iff. split.
+    + intros [<-|[(r & <- & Hr)|(r & <- & Hr)]]; cbn [length]; [lia| |]; apply IH in Hr; lia.
+    + destruct q as [|b q]; [now left|]. cbn [length]. intros Hl. right.
+      destruct b; [right|left]; exists q; (split; [reflexivity|apply IH; lia]).
+Qed.
+
+Lemma stored_cons T b q : stored T (b :: q) = stored (T / 2) q.
+Proof.
+  unfold stored. cbn [length]. rewrite Nat2Z.inj_succ. symmetry. apply Z.div2_bits. lia.
+Qed.
+
+Lemma filter_map_comm {A B} (f : B -> bool) (g : A -> B) l :
+  filter f (map g l) = map g (filter (fun x => f (g x)) l).
+Proof.
+  induction l as [|a l IH]; cbn [map filter]; [reflexivity|].
+  destruct (f (g a)); cbn [map]; now rewrite IH.
+Qed.
+
+Lemma stored_words_0 T : stored_words T 0 = if Z.testbit T 0 then [0] else [].
+Proof.
+  unfold stored_words, stored_nodes. cbn [all_nodes filter]. unfold stored at 1. cbn [length].
+  change (Z.of_nat 0) with 0. destruct (Z.testbit T 0); [|reflexivity].
+  cbn [map]. now rewrite enc_nil.
+Qed.
+
+Lemma stored_words_S T k : stored_words T (S k) =
+  (if Z.testbit T 0 then [0] else []) ++
+  map (fun w => 2 ^ Z.of_nat k + w) (stored_words (T / 2) k) ++
+  map (fun w => 2 ^ (Z.of_nat k + 32) + 2 ^ Z.of_nat k + w) (stored_words (T / 2) k).
+Proof.
+  unfold stored_words, stored_nodes. cbn [all_nodes filter]. unfold stored at 1. cbn [length].
+  change (Z.of_nat 0) with 0.
+  rewrite filter_app, !filter_map_comm.
+  rewrite (filter_ext (fun x => stored T (false :: x)) (stored (T / 2))) by (intros; apply stored_cons).
+  rewrite (filter_ext (fun x => stored T (true :: x)) (stored (T / 2))) by (intros; apply stored_cons).
+  assert (Hl : forall q, In q (filter (stored (T / 2)) (all_nodes k)) -> (length q <= k)%nat).
+  { intros q Hq. apply filter_In in Hq. now apply all_nodes_length. }
+  replace (map (enc (S k)) (if Z.testbit T 0 then [] :: _ else _))
+    with ((if Z.testbit T 0 then [0] else []) ++
+          map (enc (S k)) (map (cons false) (filter (stored (T / 2)) (all_nodes k)) ++
+                           map (cons true) (filter (stored (T / 2)) (all_nodes k)))).
+  2:{ destruct (Z.testbit T 0); cbn [map app]; [now rewrite enc_nil|reflexivity]. }
+  f_equal. rewrite map_app, !map_map. f_equal; apply map_ext_in; intros q Hq;
+    rewrite enc_cons by (now apply Hl); cbn [Z.b2z]; lia.
+Qed.
+
+Lemma stored_words_bound T h w : (h <= 32)%nat -> In w (stored_words T h) -> 0 <= w < 2 ^ (Z.of_nat h + 32).
+Proof.
+  intros Hh Hw. unfold stored_words, stored_nodes in Hw. apply in_map_iff in Hw.
+  destruct Hw as (q & <- & Hq). apply filter_In in Hq. apply enc_bound; [exact Hh|].
+  now apply all_nodes_length.
+Qed.
+
+Lemma stored_words_sasc : forall h T, (h <= 32)%nat -> sasc (stored_words T h).
+Proof.
+  induction h as [|h IH]; intros T Hh.
+  - rewrite stored_words_0. destruct (Z.testbit T 0); [apply sasc_single|exact I].
+  - rewrite stored_words_S.
+    pose proof (pow2_pos (Z.of_nat h) ltac:(lia)) as Hp.
+    pose proof (pow2_pos (Z.of_nat h + 32) ltac:(lia)) as Hp2.
+    assert (Hb : forall w, In w (stored_words (T / 2) h) -> 0 <= w < 2 ^ (Z.of_nat h + 32))
+      by (intros w; apply stored_words_bound; lia).
+    apply sasc_app. split; [destruct (Z.testbit T 0); [apply sasc_single|exact I]|]. split.
+    + apply sasc_app. split; [apply sasc_map; [intros; lia|apply IH; lia]|]. split.
+      * apply sasc_map; [intros; lia|apply IH; lia].
+      * intros x y Hx Hy. apply in_map_iff in Hx, Hy.
+        destruct Hx as (x' & <- & Hx), Hy as (y' & <- & Hy). apply Hb in Hx, Hy. lia.
+    + intros x y Hx Hy. destruct (Z.testbit T 0); [|destruct Hx]. destruct Hx as [<-|[]].
+      apply in_app_iff in Hy. destruct Hy as [Hy|Hy]; apply in_map_iff in Hy;
+        destruct Hy as (y' & <- & Hy); apply Hb in Hy; lia.
+Qed.
+
+Lemma testbit_half T m : 0 <= m -> Z.testbit (T / 2) m = Z.testbit T (m + 1).
+Proof. intros Hm. now rewrite Z.div2_bits. Qed.
+
+Lemma stored_words_In : forall h T w, In w (stored_words T h) <-> isword T (Z.of_nat h) w.
+Proof.
+  induction h as [|h IH]; intros T w.
+  - rewrite stored_words_0. unfold isword. change (Z.of_nat 0) with 0. change (2 ^ 0) with 1. split.
+    + intros Hw. destruct (Z.testbit T 0) eqn:Et; [|destruct Hw]. destruct Hw as [<-|[]].
+      exists 0, 0. split; [lia|]. split; [lia|]. split; [exists 0; lia|]. split; [exact Et|lia].
+    + intros (i & k & Hi & Hk & _ & Ht & ->). assert (k = 0) by lia. subst k.
+      change (0 - 0) with 0 in Ht. rewrite Ht. left. change (2 ^ 0) with 1. lia.
+  - rewrite stored_words_S, !in_app_iff, !in_map_iff.
+    rewrite Nat2Z.inj_succ. unfold Z.succ. set (n := Z.of_nat h). assert (Hn : 0 <= n) by (unfold n; lia).
+    pose proof (pow2_pos n Hn) as Hp. pose proof (pow2_succ n Hn) as Hs.
+    split.
+    + intros [Hw|[(w' & <- & Hw')|(w' & <- & Hw')]].
+      * destruct (Z.testbit T 0) eqn:Et; [|destruct Hw]. destruct Hw as [<-|[]].
+        exists 0, (n + 1). repeat split; try lia. { exists 0; lia. }
+        replace (n + 1 - (n + 1)) with 0 by lia. exact Et.
+      * apply IH in Hw'. fold n in Hw'. destruct Hw' as (i & k & Hi & Hk & Hj & Ht & ->).
+        exists i, k. repeat split; try lia; try assumption.
+        rewrite testbit_half in Ht by lia. replace (n + 1 - k) with (n - k + 1) by lia. exact Ht.
+      * apply IH in Hw'. fold n in Hw'. destruct Hw' as (i & k & Hi & Hk & (j & Hj) & Ht & ->).
+        exists (i + 2 ^ n), k. repeat split; try lia.
+        -- exists (j + 2 ^ (n - k)). rewrite (pow2_split n k) by lia. lia.
+        -- rewrite testbit_half in Ht by lia. replace (n + 1 - k) with (n - k + 1) by lia. exact Ht.
+        -- rewrite Z.pow_add_r by lia. lia.
+    + intros (i & k & Hi & Hk & (j & Hj) & Ht & ->).
+      destruct (Z.eq_dec k (n + 1)) as [->|Hne].
+      * left. replace (n + 1 - (n + 1)) with 0 in Ht by lia. rewrite Ht.
+        assert (j = 0) by (pose proof (pow2_pos (n + 1) ltac:(lia)); nia). subst j. left. lia.
+      * right. assert (Hkn : k <= n) by lia.
+        assert (Ht' : Z.testbit (T / 2) (n - k) = true).
+        { rewrite testbit_half by lia. replace (n - k + 1) with (n + 1 - k) by lia. exact Ht. }
+        destruct (Z_lt_le_dec i (2 ^ n)) as [Hlt|Hge].
+        -- left. exists (i * 2 ^ 32 + (2 ^ n - 2 ^ k)). split; [lia|]. apply IH. fold n.
+           exists i, k. repeat split; try lia; try assumption. exists j; exact Hj.
+        -- right. exists ((i - 2 ^ n) * 2 ^ 32 + (2 ^ n - 2 ^ k)). split.
+           { rewrite Z.pow_add_r by lia. lia. }
+           apply IH. fold n. exists (i - 2 ^ n), k. repeat split; try lia; try assumption.
+           exists (j - 2 ^ (n - k)). rewrite (pow2_split n k) by lia. lia.
+Qed.
